@@ -30,7 +30,7 @@ ENGINE = "enum"
 TECHNIQUE = "exhaustive subset enumeration of entry specs built as real tmpfs trees; lstat-snapshot oracle"
 RULE = (
     "all path-consistent subsets (size bound per tier) of a universe of entry specs (files in 4 attribute/data groups "
-    "where equal group = hardlinked, relative/absolute/chained/dangling symlinks, fifos, char and block devices, explicit "
+    "where equal group = hardlinked, relative/absolute/chained (outer name sorting before and after the inner)/dangling symlinks, fifos, char and block devices, explicit "
     "directories with sticky/odd owners) are built on tmpfs, scanned, written and read back through three writers "
     "(bzip2 write_set/generate_contents, uncompressed add_contents_to_tarfile/convert_archive, foreign-style archive "
     "with hardlink chains), in sorted and reversed contents order, and once per directory-denoting symlink with the "
@@ -54,9 +54,9 @@ ASSUMPTIONS = [
     "must run as root on tmpfs (mknod, chown)",
 ]
 BOUNDS = {
-    "quick": "universe of 28 entry specs: all subsets of size <= 3 (3 3xx trees) + all subsets of size 4-5 of a 12-spec "
+    "quick": "universe of 29 entry specs: all subsets of size <= 3 + all subsets of size 4-5 of a 12-spec "
     "core (hardlink triple x alias chain x fifo x device); x 3 writers, 2 orders, every alias variant; empty archives",
-    "thorough": "universe of 32 entry specs (adds 120-char name, non-ASCII name with space, uid 3000000, symlink to parent): "
+    "thorough": "universe of 33 entry specs (adds 120-char name, non-ASCII name with space, uid 3000000, symlink to parent): "
     "all subsets of size <= 4 + core subsets of size 5-7; same variants",
 }
 
@@ -89,6 +89,7 @@ def _universe(tier):
     u += [
         ["s", "/l1", "d", 0, 0],
         ["s", "/l2", "l1", 0, 0],
+        ["s", "/l0", "l1", 0, 0],
         ["s", "/z/up", "../d", 0, 0],
         ["s", "/abs", "/d/e", 0, 0],
         ["s", "/sf", "f", 1234, 100],
